@@ -119,6 +119,17 @@ func NewChain(w *World) (c *Chain, err error) {
 	return NewChainFromState(w, w.Genesis, 1)
 }
 
+// consensusParams: the application's defaults, with the configured block gas limit if any.
+func consensusParams(w *World) *tmproto.ConsensusParams {
+	p := *exocoreapp.DefaultConsensusParams
+	if w.Cfg.EVM != nil && w.Cfg.EVM.BlockMaxGas > 0 {
+		blk := *p.Block
+		blk.MaxGas = w.Cfg.EVM.BlockMaxGas
+		p.Block = &blk
+	}
+	return &p
+}
+
 // NewChainFromState is NewChain with an explicit app state and initial height (used for the
 // export/import round trip).
 func NewChainFromState(w *World, state map[string]json.RawMessage, initialHeight int64) (c *Chain, err error) {
@@ -143,7 +154,7 @@ func NewChainFromStateAt(w *World, state map[string]json.RawMessage, initialHeig
 		Time:            genesisTime,
 		ChainId:         w.Cfg.ChainID,
 		Validators:      []abci.ValidatorUpdate{},
-		ConsensusParams: exocoreapp.DefaultConsensusParams,
+		ConsensusParams: consensusParams(w),
 		AppStateBytes:   stateBytes,
 		InitialHeight:   initialHeight,
 	})
